@@ -61,7 +61,7 @@ def _case(draw, mode):
         "name": name,
         "path_kind": draw(st.sampled_from(["str", "Path"])),
         "pre": pre,
-        "pre_bytes": draw(st.binary(min_size=1, max_size=40)),
+        "pre_bytes": draw(st.binary(min_size=1, max_size=40)).hex(),
         "steps": draw(_steps()),
         "steps2": draw(_steps()) if mode == "save-twice" else [],
         "shrink_second": draw(st.booleans()),
@@ -70,6 +70,16 @@ def _case(draw, mode):
 
 def strategy(tier, stratum):
     return _case(stratum)
+
+
+ENUM_SPACE = "worklists with exactly n records for n in {0,1,2,63,64,65,127,128,129,255,256,257,511,512,513,767,768,769,1023,1024,1025} x {save, with} (block-size boundaries of a chunked writer)"
+
+
+def enumerate_cases(tier):
+    for n in (0, 1, 2, 63, 64, 65, 127, 128, 129, 255, 256, 257, 511, 512, 513, 767, 768, 769, 1023, 1024, 1025):
+        for mode in ("save", "with"):
+            steps = [{"m": "bulk", "n": n}] if n else []
+            yield {"mode": mode, "name": "out.gwl", "path_kind": "str", "pre": "longer", "pre_bytes": "00ff", "steps": steps, "steps2": [], "shrink_second": False}
 
 
 def _apply(wl, steps):
@@ -132,6 +142,8 @@ def check_case(case) -> Obs:
         pre = case["pre"]
         if pre in ("shorter", "longer"):
             blob = case["pre_bytes"]
+            if isinstance(blob, str):
+                blob = bytes.fromhex(blob)
             if pre == "longer":
                 blob = blob * (expected_len // len(blob) + 3) + b"\r\nTRAILING;GARBAGE\r\n"
             else:
@@ -196,7 +208,7 @@ def check_case(case) -> Obs:
             wl.save(arg)
             _check_file(obs, path, records, "save after replacing a record in place")
             with open(path, "wb") as fh:
-                fh.write(case["pre_bytes"] * 40)
+                fh.write(bytes.fromhex(case["pre_bytes"]) * 40)
             wl.save(arg)
             _check_file(obs, path, records, "save after the file was overwritten by someone else")
         elif mode == "with-twice":
